@@ -83,13 +83,18 @@ def run(repo, filt='', seed=0, timeout=1500):
 
 
 # drivers of other properties that also decide sentences of this one (they emit witnesses under both ids)
-RELATED = {'C10': ['c08_'], 'C08': ['c10_push', 'c10_dis', 'c03_config'], 'C05': ['c08_'], 'C17': ['c03_gas', 'c03_config'], 'C03': ['c14_named', 'c14_random', 'c17_gas'], 'C01': ['c10_dis', 'c19_', 'c06_', 'c09_', 'c12_out_of_range'],
-           'C18': ['c03_config'], 'C13': ['c03_config'], 'C07': ['c08_valid_targets']}
+RELATED = {'C10': ['c08_'], 'C08': ['c10_push', 'c10_dis', 'c03_config'], 'C05': ['c08_'], 'C17': ['c03_gas', 'c03_config'], 'C03': ['c14_named', 'c14_random', 'c17_gas', 'c01_cyclic'], 'C01': ['c10_dis', 'c19_', 'c06_', 'c09_', 'c12_out_of_range'],
+           'C18': ['c03_config'], 'C13': ['c03_config'], 'C07': ['c08_valid_targets'], 'C14': ['c01_cyclic']}
 
 
 def for_property(pid, repo, seed=0):
     filt = ' '.join([pid.lower() + '_'] + RELATED.get(pid, []))
     r = run(repo, filt, seed)
+    # a run of this property's drivers that was killed by a signal (native stack overflow, abort) is a failure to terminate
+    # normally: it counts for the termination properties too, not only for C01
+    for w in r['witnesses']:
+        if w['obligation'] == 'process.killed_by_signal' and pid in ('C03', 'C14'):
+            w['property'] = pid
     r['witnesses'] = [w for w in r['witnesses'] if w['property'] == pid]
     # drivers of this property that had to be left out because they do not compile against the tree under test
     r['excluded_relevant'] = [d for d in r.get('excluded_drivers', []) if any(fl.startswith(d + '_') or fl.rstrip('_') == d or fl.startswith(d) for fl in filt.split())]
